@@ -159,7 +159,7 @@ def lift_k4(do_all, dae, msa, picks, seeded, seed_zero=False):
 # ---- K6: the whole pipeline is order-independent on tiny inputs ---------------------------------------------
 def k6_pipeline_order(ai: List[int], di: List[int]) -> bool:
     """
-    pre: len(ai) == 3 and len(di) == 3 and all(0 <= i < 2 for i in ai) and all(0 <= i < P['nd'] for i in di)
+    pre: len(ai) == 3 and len(di) == 3 and all(0 <= i < 3 for i in ai) and all(0 <= i < P['nd'] for i in di)
     post: __return__
     """
     def pick(i, menu):
@@ -167,7 +167,9 @@ def k6_pipeline_order(ai: List[int], di: List[int]) -> bool:
             if i == k:
                 return menu[k]
         return menu[-1]
-    ex = [pick(a, ['ab', 'cd']) + '-' + pick(d, ['1', '33', '2']) for a, d in zip(ai, di)]
+    # (the third first-field value brings a character class the other two lack, so that characters collected
+    # beyond the per-fragment string cap matter)
+    ex = [pick(a, ['ab', 'cd', 'e7']) + '-' + pick(d, ['1', '33', '2']) for a, d in zip(ai, di)]
     kw = dict(size=Size(max_strings_in_group=P['cap']), variableLengthFrags=bool(P.get('vlf')))
     base = rx.extract(list(ex), **kw)
     for perm in ((0, 2, 1), (1, 0, 2), (2, 1, 0)):
@@ -285,10 +287,10 @@ def _obs():
         obs.append(Ob('K6', 'k6_pipeline_order', 'end to end on tiny inputs: the list returned by the real extract() is '
                       'the same for every ordering of the examples, for the frequency-dictionary form, with an '
                       'example repeated, and on a second call',
-                      '3 examples <ab|cd>-<1|33[|2]> (symbolic indexes, repeats included); '
+                      '3 examples <ab|cd|e7>-<1|33[|2]> (symbolic indexes, repeats included); '
                       'Size.max_strings_in_group=%d (so that the per-fragment string cap is inside the bound); '
                       'variableLengthFrags=%s' % (cap, vlf), param={'cap': cap, 'vlf': vlf, 'nd': 2 if tier == 'quick' else 3},
-                      timeout=600 if tier == 'quick' else 3000, tier=tier))
+                      timeout=1000 if tier == 'quick' else 3000, tier=tier))
     for xl, da, len2, len3, tier in ((2, 1, 1, 0, 'quick'), (0, 1, 1, 0, 'quick'), (2, 2, 1, 0, 'thorough'),
                                      (1, 1, 2, 0, 'thorough'), (2, 1, 1, 1, 'thorough')):
         obs.append(Ob('K6', 'k6_sampled_order', 'end to end when extraction starts from a sample (forced by a tiny '
